@@ -412,7 +412,7 @@ func runC05(r *Report, tier string) {
 			}
 		}
 	}
-	r.floor("R05.2", nd, 12, "DecMode call sites")
+	r.floorSoft("R05.2", nd, 12, "DecMode call sites")
 
 	// R05.3 / R05.4 / R05.5(layer) per structure decoder ---------------------
 	ivFn := P.ivCheck()
